@@ -27,10 +27,10 @@ m = {
     "version": 1,
     "setup_cmd": "./setup.sh",
     "hooks": {
-        "guard": "cfg(kani)",
-        "enable": "cargo kani sets --cfg kani for every crate it compiles; the only hook is a cfg(kani) re-export in data/src/basic/mod.rs (StorageSettings, ReallocationStrategy, StorageBlock) so that the store-level harnesses can call the public BasicGarnishData::new_with_settings with small blocks. Harnesses live in /verif/harness with path dependencies on /repo's crates, recompiled from the working tree at every check; ordinary builds (and the native replay) never see the hook.",
+        "guard": "cfg(any(kani, garnish_verif))",
+        "enable": "cargo kani sets --cfg kani for every crate it compiles; the only hook is a cfg(kani) re-export in data/src/basic/mod.rs (StorageSettings, ReallocationStrategy, StorageBlock) so that the store-level harnesses can call the public BasicGarnishData::new_with_settings with small blocks. Harnesses live in /verif/harness with path dependencies on /repo's crates, recompiled from the working tree at every check; the native replay binary is built with RUSTFLAGS=--cfg garnish_verif (same small blocks); ordinary builds never see the hook.",
         "baseline_off_cmd": "cd /repo && cargo test --workspace --no-fail-fast --offline",
-        "source_commits": ["b65978f"],
+        "source_commits": ["b65978f", "fef61db"],
         "add_only": True,
     },
     "engines": [
